@@ -46,7 +46,7 @@ var origStdout *os.File
 func Quiet() {
 	if os.Getenv("VERIF_REPO_LOGS") != "" {
 		// debugging aid: let error-level repo logs through to stderr
-		log15.Root().SetHandler(log15.LvlFilterHandler(log15.LvlError, log15.StderrHandler))
+		log15.Root().SetHandler(log15.LvlFilterHandler(map[string]log15.Lvl{"debug": log15.LvlDebug}[os.Getenv("VERIF_REPO_LOGS")]|log15.LvlError, log15.StderrHandler))
 		common.Clock = Clock
 		return
 	}
